@@ -358,6 +358,25 @@ func c14Inputs(c *Ctx) []c14Input {
 		in = append(in, c14Input{"S9F9\n" + strings.Repeat("<L[1] ", d) + "<U1 7>" + strings.Repeat(">", d) + "\n.", "nesting"})
 		in = append(in, c14Input{"S9F9\n" + strings.Repeat("<L", d) + strings.Repeat(">", d-1) + ".", "nesting-unbalanced"})
 	}
+	// the nesting limit is per path and per message, whatever was parsed before: lists closed earlier in the same
+	// message, or whole earlier messages of the same text, neither widen nor narrow it (after seeded changes C14e-1
+	// — a depth counter lowered twice per closed list — and C13e-2 — raised once per empty list)
+	nestOf := func(d int) string { return strings.Repeat("<L ", d) + "<U1 7>" + strings.Repeat(">", d) }
+	for _, k := range []int{1, 5, 70, 200} {
+		closed := strings.Repeat("<L> ", k)
+		for _, d := range []int{62, 63, 64, 65, 130} {
+			tag := "nesting-after-lists-within"
+			if d+1 > 64 {
+				tag = "nesting-after-lists-over"
+			}
+			in = append(in, c14Input{"S9F9\n<L " + closed + nestOf(d) + ">.", tag}) // the deep branch sits at depth d+1
+			tag2 := "nesting-after-lists-within"
+			if d > 64 {
+				tag2 = "nesting-after-lists-over"
+			}
+			in = append(in, c14Input{"S1F1\n<L " + closed + ">.\nS9F9\n" + nestOf(d) + ".", tag2})
+		}
+	}
 	// random bytes and random grammar soup
 	for i := 0; i < c.Pick(400, 8000); i++ {
 		n := r.IntN(60)
@@ -547,6 +566,14 @@ func runC14(c *Ctx) {
 				c.Violate("property", "returned-message-invalid", "a returned message's body cannot be read", replay)
 			}
 			c14CheckPos(c, in.text, out, replay)
+			if m.entry == "all" {
+				switch {
+				case in.tag == "nesting-after-lists-over" && strings.HasPrefix(out, "ok"):
+					c.Violate("property", "depth-limit-not-enforced", fmt.Sprintf("parser (strict=%v) accepted a text nested deeper than %d lists after earlier closed lists: %q", m.strict, secs2.MaxListDepth, clip(in.text, 200)), replay)
+				case in.tag == "nesting-after-lists-within" && !strings.HasPrefix(out, "ok"):
+					c.Violate("property", "depth-limit-miscounted", fmt.Sprintf("parser (strict=%v) refused a text whose deepest path has at most %d lists (%s): %q", m.strict, secs2.MaxListDepth, out, clip(in.text, 200)), replay)
+				}
+			}
 			if c.Lean != nil {
 				_, depth, mo := c13SmlModelParse(c, m.entry, m.strict, in.text)
 				if mo != out {
